@@ -26,7 +26,7 @@ import (
 func init() {
 	core.Register(&core.Property{
 		ID:   "C18",
-		Rule: "generated resources of every R4 type x element nodes of their FHIR tree x path forms {indexed, plain, first()/last(), where(field = lit), extension(url), tail/skip/take sub-slices, no-op trailing steps} x operations {add, insert, delete, replace, move} x values {right type, sibling type, other primitive type, wrong complex type, nil}; add also on primitive elements (id, extension, and the scalar proto fields value/precision/timezone that are not elements) x indexes [-1, len+1] ∪ {MinInt, MaxInt}; each call runs on a fresh clone; on success the resource must equal the result of the harness' own edit of a second clone (hence every other element unchanged); on error the deterministic bytes of the resource and of the value must be unchanged; delete of an absent element is a no-op success; Move reports ErrNotImplemented; sequences with inverse pairs return to the original. distinct_nontrivial = distinct (operation, path form, element class, value kind, outcome) tuples",
+		Rule: "generated resources of every R4 type x element nodes of their FHIR tree x path forms {indexed, plain, first()/last(), where(field = lit), extension(url), tail/skip/take sub-slices, no-op trailing steps} x operations {add, insert, delete, replace, move} x values {right type, sibling type, other primitive type, wrong complex type, nil}; add also on primitive elements (id, extension, and the scalar proto fields value/precision/timezone that are not elements) x indexes [-1, len+1] ∪ {MinInt, MaxInt}; each call runs on a fresh clone; on success the resource must equal the result of the harness' own edit of a second clone (hence every other element unchanged); on error the deterministic bytes of the resource and of the value must be unchanged; delete of an absent element is a no-op success; Move reports ErrNotImplemented; sequences with inverse pairs return to the original. Add of Reference.reference on eight Reference forms; distinct_nontrivial = distinct (operation, path form, element class, value kind, outcome) tuples",
 		Assumptions: []string{"an error on an operation the model considers valid is not a violation (the statement constrains successes and failures, not which calls succeed); every (operation, path form) pair must have been observed to succeed at least once",
 			"sibling-type values (code for an enum-bound code, integer for positiveInt, id for a reference) may be normalised by the library: on success only the frame (everything but the target) and non-emptiness of the target are checked"},
 		Run:    runC18,
